@@ -6,8 +6,9 @@ CONSTANTS
   Atoms <- AtomsListN
   Prefix <- PfxNone
   MaxLen = 9
+  MaxAtoms = 99
   Cfgs <- CfgsPAIs
   Junk = 34
   EmitOn = TRUE
-INVARIANTS ResumeEqFresh Stable OffsSane Emit
+INVARIANTS ResumeEqFresh Stable OffsSane Emit EmitTwo EmitByte
 CHECK_DEADLOCK FALSE
